@@ -28,7 +28,7 @@ type params struct {
 }
 
 func init() {
-	report.Register("C07", report.Check{Level: "model_checking", QuickBudget: 150 * time.Second, ThoroughBudget: 40 * time.Minute, Run: run})
+	report.Register("C07", report.Check{Level: "model_checking", QuickBudget: 240 * time.Second, ThoroughBudget: 25 * time.Minute, Run: run})
 	explore.Register("C07.hist", func(p string) explore.Harness {
 		var pr params
 		json.Unmarshal([]byte(p), &pr)
